@@ -279,6 +279,9 @@ def check(case, acc):
     elif group == "ufunc":
         for uf in (np.negative, np.square):
             _cmp(acc, uf.__name__, [uf(a).tolist() for a in arr], lambda: uf(mk()))
+        # a float ufunc (the result of int8 data is float16, of int64 data float64): decoded like any other
+        with np.errstate(all="ignore"):
+            _cmp(acc, "sqrt(abs(x // 2))", [np.sqrt(np.abs(a // 2)).tolist() for a in arr], lambda: np.sqrt(np.abs(mk() // 2)))
         # a float column on integer data: the column must not be cast to the run values' dtype
         fcv = (np.arange(1, n + 1) + 0.5)[:, None]
         for un in ("add", "multiply", "less", "subtract"):
@@ -307,6 +310,8 @@ def check(case, acc):
                 _cmp(acc, f"{un}(column,{side})", e, lambda: uf(mk(), cv) if side == "R" else uf(cv, mk()))
     elif group in ("colint", "colslice"):
         rsels = [slice(None), slice(None, None, -1), [0], list(range(n))[::-1]]
+        if n >= 2:
+            rsels += [[n - 1], slice(1, None), np.arange(n) >= 1]      # selections that leave out a (possibly shorter) FIRST row
         for rs in rsels:
             sel = _ref_rows(rows, rs)
             mn = min(len(r) for r in sel)
